@@ -95,7 +95,7 @@ def main():
             na.append({"property_id": pid, "reason": NA[pid]})
         else:
             na.append({"property_id": pid, "reason": NOT_BUILT_REASON})
-    hooks_commits = subprocess.run(["git", "-C", "/repo", "log", "--format=%h %s", "--grep=^verif hooks"],
+    hooks_commits = subprocess.run(["git", "-C", "/repo", "log", "--format=%h %s", "--grep=^verif hook"],
                                    capture_output=True, text=True).stdout.strip().splitlines()
     manifest = {
         "version": 1,
